@@ -67,6 +67,23 @@ GetState(h) == [g |-> FuncIndex(h.getattr, GetattrTable), s |-> FuncIndex(h.seta
 SetState(gs) == [getattr |-> GetattrTable[gs.g], setattr |-> SetattrTable[gs.s], post |-> SetattrPropertyTable[gs.p],
                  validate |-> ValidateTable[gs.v], dname |-> DelegateNameTable[gs.d]]
 
+\* ---- the arity guard of _trait_set_property: the accessors are dispatched through tables indexed by their number of
+\* arguments - getattr_property0..3, setattr_property0..3 (the FIRST FOUR entries of SetattrPropertyTable; the two behind
+\* them serve __getstate__ only), setattr_validate0..3 (ValidateTable 16..19).  Arities outside 0..MaxArity must be
+\* rejected (ValueError) BEFORE any table is read.
+MaxArity == 3
+\* (validate_n is checked whether or not a validator is given)
+ArityGuard(gn, sn, vn, hasv) == gn \in 0..MaxArity /\ sn \in 0..MaxArity /\ vn \in 0..MaxArity
+Arities == -1..6
+GetattrPropertySlots == 4    SetattrPropertySlots == 4    ValidatePropertySlots == 4
+ArityCases == {<<gn, sn, vn, hv>> \in Arities \X Arities \X Arities \X BOOLEAN : TRUE}
+\* whatever the guard lets through indexes inside its table
+GuardKeepsIndicesInTables == \A c \in ArityCases : ArityGuard(c[1], c[2], c[3], c[4]) =>
+   c[1] + 1 <= GetattrPropertySlots /\ c[2] + 1 <= SetattrPropertySlots /\ (c[4] => c[3] + 1 <= ValidatePropertySlots)
+   /\ GetattrTable[9 + c[1] + 1] = "getattr_property" \o ToString(c[1])
+   /\ SetattrPropertyTable[c[2] + 1] = "setattr_property" \o ToString(c[2])
+   /\ (c[4] => ValidateTable[15 + c[3] + 1] = "setattr_validate" \o ToString(c[3]))
+
 VARIABLES h, st               \* st: the indices __getstate__ stores (mode A: compared with the real CTrait.__getstate__())
 Init == h \in Reachable /\ st = GetState(h)
 Next == UNCHANGED <<h, st>>
